@@ -140,6 +140,8 @@ class Parser:
         tok = self.next()
         if tok[0] == "punct" and tok[1] == "-":
             return None
+        if tok[0] == "int" and tok[1].isdigit():
+            return tok[1]      # PN_LOCAL may consist of digits only: in an identifier position '007' is the unprefixed name 007
         if tok[0] != "qn" or tok[1] in KEYWORDS:
             raise ProvNSyntaxError("identifier expected, got %r" % (tok,))
         return tok[1]
